@@ -47,7 +47,7 @@ fn global_json(g: &Option<GlobalOptions>) -> Value {
 pub fn cnf_dump(input: &Value) -> Value {
 	let path = PathBuf::from(input["path"].as_str().unwrap_or(""));
 	let mut loaded = BTreeSet::new();
-	let mut config = match read_cnf(&path, &mut loaded) {
+	let mut config = match read_cnf(&path, &mut loaded, 0) {
 		Ok(c) => c,
 		Err(e) => return json!({"rejected": e.message}),
 	};
